@@ -80,7 +80,11 @@ type ipPeer struct {
 }
 
 func newIPPeer(ip net.IP) *ipPeer {
-	c, err := net.ListenUDP("udp4", &net.UDPAddr{IP: ip})
+	nw := "udp4"
+	if ip.To4() == nil {
+		nw = "udp6"
+	}
+	c, err := net.ListenUDP(nw, &net.UDPAddr{IP: ip})
 	if err != nil {
 		panic(err)
 	}
@@ -126,11 +130,11 @@ func (p *ipPeer) serve(resps []val, mk func(req []byte) []byte, done chan struct
 	}
 }
 
-func runClientIP(e *netEnv, a []val) string {
-	p := newIPPeer(e.peerIP)
+func runClientIP(e *netEnv, a []val, ip net.IP) string {
+	p := newIPPeer(ip)
 	defer p.conn.Close()
 	c := &client.IPClient{Log: discardLog}
-	local := &net.UDPAddr{IP: e.peerIP}
+	local := &net.UDPAddr{IP: ip}
 	limit := craftedLimit
 	do := func(resps []val, honest bool) error {
 		done := make(chan struct{})
@@ -140,7 +144,7 @@ func runClientIP(e *netEnv, a []val) string {
 		}
 		go p.serve(resps, mk, done)
 		err, _ := callWithin(limit, func(ctx context.Context) error {
-			_, _, err := client.MeasureClockOffsetIP(ctx, discardLog, c, local, &net.UDPAddr{IP: e.peerIP, Port: p.port()})
+			_, _, err := client.MeasureClockOffsetIP(ctx, discardLog, c, local, &net.UDPAddr{IP: ip, Port: p.port()})
 			return err
 		})
 		waitDone(done, p.conn)
@@ -299,6 +303,14 @@ func (p *ntsPeer) ntsReply(req []byte, mode int64, cookieLens []int64) []byte {
 	}
 	if len(plain) > 800 {
 		plain = plain[:800]
+	}
+	if (mode == 5 || mode == 6) && len(cookieLens) > 0 {
+		// plaintexts that do not end on a field boundary
+		plain = make([]byte, cookieLens[0])
+		rand.Read(plain)
+		if mode == 6 {
+			plain = append(extField(0x204, make([]byte, 124)), plain...)
+		}
 	}
 	out := craftNTS(hdr, [][]byte{extField(0x104, uid)}, s2c, plain, nonceLen, damage)
 	if debugOn {
@@ -557,7 +569,9 @@ func runClientSCION(e *netEnv, a []val) string {
 func runClient(e *netEnv, j job, a []val) string {
 	switch j.kind {
 	case "cli.ip":
-		return runClientIP(e, a)
+		return runClientIP(e, a, e.peerIP)
+	case "cli.ip6":
+		return runClientIP(e, a, net.IPv6loopback)
 	case "cli.nts":
 		return runClientNTS(e, a)
 	case "cli.csptp":
